@@ -157,3 +157,11 @@ claim('C15', 'bounded symbolic execution with a *symbolic codec-name spelling*: 
       'give the same text and content bytes as under the canonical spelling (symbolic text for the UTF/latin-1/ascii '
       'families, concrete text through the real codec for all others).',
       BASE_NOTE + ' Stateful / non-text codecs are outside the property.', 'DESIGN.md section 4, C15')
+
+claim('C20', 'bounded symbolic execution of the DiffX lexer through the real Pygments RegexLexer driver (loaded under the same instrumentation; rule regexes executed by the exact backtracking regex model), z3 decides losslessness',
+      'The real rule table and flags of DiffXLexer run through the real pygments.lexer driver on fully symbolic text of '
+      '0..7 (quick) / 0..9 (thorough) code points, on every rule-header literal and two-section prefix followed by '
+      '0..4 / 0..6 symbolic code points, and on UTF-8 files produced by the real writer with a symbolic content section '
+      'without "#.": every path terminates, the concatenated token values equal the input, and for writer files no '
+      'Error token occurs and the Name.Tag header tokens are the file\'s headers in order.',
+      BASE_NOTE + ' JsonLexer / DiffLexer are identity stubs in symbolic runs (real in replays).', 'DESIGN.md section 4, C20')
